@@ -37,7 +37,12 @@ struct Node {
 }
 
 fn mk_node(slaac: bool, seed: u64) -> Node {
-    let mut dev = QDev::new(Medium::Ethernet, 1514);
+    mk_node_mtu(slaac, seed, 1514)
+}
+
+/// same node on a device with a smaller MTU (oracle only: IPv4 fragmentation of the fragment probe)
+fn mk_node_mtu(slaac: bool, seed: u64, dev_mtu: usize) -> Node {
+    let mut dev = QDev::new(Medium::Ethernet, dev_mtu);
     let mut cfg = Config::new(HardwareAddress::Ethernet(EthernetAddress(OWN_MAC)));
     cfg.random_seed = seed;
     cfg.slaac = slaac;
@@ -654,6 +659,123 @@ fn probe_case(c: &Case, fails: &mut Vec<String>, stats: &mut std::collections::B
         now_us = next.max(now_us);
     }
     *stats.entry("runs".into()).or_default() += 1;
+    if rng.chance(1, 3) {
+        frag_probe(c, fails, stats, rng);
+    }
+}
+
+/// UDP fragments (IPv4, protocol 17, to the primed peer 10.0.0.2) among the emitted frames
+fn count_udp_frags(frames: &[Vec<u8>]) -> usize {
+    frames
+        .iter()
+        .filter(|f| {
+            let Ok(e) = EthernetFrame::new_checked(&f[..]) else { return false };
+            if e.ethertype() != EthernetProtocol::Ipv4 {
+                return false;
+            }
+            let Ok(p) = Ipv4Packet::new_checked(e.payload()) else { return false };
+            p.next_header() == IpProtocol::Udp && p.dst_addr() == Ipv4Address::new(10, 0, 0, 2)
+        })
+        .count()
+}
+
+/// Pending fragments (the property's quantifier names them): a UDP datagram larger than the IP MTU is sent while
+/// the device hands out only 0..2 tx tokens per poll, so that `Interface::poll` returns with fragments left in the
+/// fragmenter (a poll emits at most two fragments per datagram anyway: `ipv4_egress` sends one per egress round).
+/// Whenever the device accepts frames again and fragments are still pending, a poll would transmit:
+/// by the early-poll clause poll_at must then be <= now (`c13-early-poll-transmits` otherwise, shown by an extra
+/// poll); poll_delay must agree with poll_at (`c13-poll-delay-inconsistent`); the datagram must be out after
+/// finitely many polls at the demanded instants (`c13-spin`); and once everything is out an idle poll must be
+/// followed by a later deadline or none (`c13-spin`).
+fn frag_probe(c: &Case, fails: &mut Vec<String>, stats: &mut std::collections::BTreeMap<String, u64>, rng: &mut Rng) {
+    let slaac = c.get_i("slaac", 1) == 1;
+    let ip_mtu = *rng.pick(&[68usize, 100, 296, 576]);
+    let mut n = mk_node_mtu(slaac, c.get_i("rs", 7) as u64, 14 + ip_mtu);
+    let rx = udp::PacketBuffer::new(vec![udp::PacketMetadata::EMPTY; 2], vec![0; 256]);
+    let tx = udp::PacketBuffer::new(vec![udp::PacketMetadata::EMPTY; 2], vec![0; 2048]);
+    let h = n.sockets.add(udp::Socket::new(rx, tx));
+    let per = (ip_mtu - 20) & !7;
+    let len = rng.range((2 * per as i64).min(1200), 1400) as usize;
+    let expected = (len + 8 + per - 1) / per;
+    let payload: Vec<u8> = (0..len).map(|i| i as u8).collect();
+    let mut now_us: i64 = 1_000_000 + rng.below(3_000_000) as i64;
+    let mut queued = false;
+    let mut sent = 0usize;
+    let mut steps = 0;
+    *stats.entry("frag_probes".into()).or_default() += 1;
+    while steps < 300 {
+        steps += 1;
+        let now = Instant::from_micros(now_us);
+        prime_arp(&mut n);
+        if !queued && steps == 2 {
+            let s = n.sockets.get_mut::<udp::Socket>(h);
+            let _ = s.bind(6000);
+            queued = s.send_slice(&payload, (IpAddress::v4(10, 0, 0, 2), 9)).is_ok();
+            if !queued {
+                return;
+            }
+        }
+        n.dev.tx_budget = match rng.below(8) {
+            0 | 1 => Some(0),
+            2 | 3 | 4 => Some(1),
+            5 => Some(2),
+            6 => Some(3),
+            _ => None,
+        };
+        n.iface.poll(now, &mut n.dev, &mut n.sockets);
+        let frames = n.dev.drain_tx();
+        let nfr = frames.len();
+        sent += count_udp_frags(&frames);
+        // the device accepts frames again
+        n.dev.tx_budget = None;
+        let pa = n.iface.poll_at(now, &n.sockets);
+        let pd = n.iface.poll_delay(now, &n.sockets);
+        let want_pd = pa.map(|t| if t > now { t - now } else { Duration::from_micros(0) });
+        if pd != want_pd {
+            fails.push(format!("c13-poll-delay-inconsistent :: case {} fragment probe at {}us: poll_at={} but poll_delay={:?}", c.id, now_us, fmt_opt(pa), pd));
+            return;
+        }
+        let pending = queued && sent < expected;
+        if pending {
+            *stats.entry("frag_pending_polls".into()).or_default() += 1;
+            if pa.map(|t| t > now).unwrap_or(true) {
+                // the stack asks to sleep although it holds fragments and the device is ready: show that a poll
+                // before the returned instant transmits
+                let probe_us = now_us + 1;
+                if pa.map(|t| t.total_micros() > probe_us).unwrap_or(true) {
+                    n.iface.poll(Instant::from_micros(probe_us), &mut n.dev, &mut n.sockets);
+                    let fr = n.dev.drain_tx();
+                    let bad: Vec<&Vec<u8>> = fr.iter().filter(|f| classify(f) != FrameKind::McastReport).collect();
+                    if !bad.is_empty() {
+                        fails.push(format!(
+                            "c13-early-poll-transmits :: case {} fragment probe: poll at {}us left {} of {} fragments in the fragmenter (device back-pressure) and returned poll_at={}, but an extra poll at {}us on the now ready device transmitted {} frame(s) (first: {})",
+                            c.id, now_us, expected - sent, expected, fmt_opt(pa), probe_us, bad.len(), hex(&bad[0][..bad[0].len().min(60)])
+                        ));
+                        return;
+                    }
+                    sent += count_udp_frags(&fr);
+                }
+            }
+            now_us = pa.map(|t| t.total_micros()).unwrap_or(now_us + 1_000).max(now_us + 1);
+            continue;
+        }
+        if queued {
+            // everything is out: the first idle poll must not demand another poll at the same instant
+            if nfr == 0 && n.dev.rx.is_empty() {
+                if let Some(t) = pa {
+                    if t <= now {
+                        fails.push(format!("c13-spin :: case {} fragment probe at {}us: all {} fragments sent, idle poll, but poll_at = {}us <= now", c.id, now_us, expected, t.total_micros()));
+                    }
+                }
+                *stats.entry("frag_probes_completed".into()).or_default() += 1;
+                return;
+            }
+        }
+        now_us = pa.map(|t| t.total_micros()).unwrap_or(now_us + 1_000).max(now_us + 1);
+    }
+    if queued && sent < expected {
+        fails.push(format!("c13-spin :: case {} fragment probe: {} of {} fragments still unsent after 300 polls at the demanded instants", c.id, expected - sent, expected));
+    }
 }
 
 fn main() {
